@@ -8,11 +8,13 @@
   mux   spec/Gen_Muxer.tla (G: sibling groups, parent rank, child patches of unequal size; join/split/join_send/
         split_recv) -> harness/c13_gvec.cpp
 """
-import json, os
+import json, os, re
 import concurrent.futures as cf
 import vlib
 
-MPIRUN = ["mpirun", "--allow-run-as-root", "--oversubscribe", "--bind-to", "none", "-np"]
+# mpi_yield_when_idle: several shards of np processes run side by side on a shared machine; without it the busy-polling
+# ranks starve each other (measured: 640 muxer cases on 6 ranks, two shards: 48 s without, 2.5 s with)
+MPIRUN = ["mpirun", "--allow-run-as-root", "--oversubscribe", "--bind-to", "none", "--mca", "mpi_yield_when_idle", "1", "-np"]
 
 
 def _cfg(name, text):
@@ -32,7 +34,11 @@ def _rm(name):
 def sig(c, r):
     why = r.get("why") or ""
     what = why.split(":")[1].strip().split(" ")[0] if ":" in why else ""
-    return {"kind": c.get("kind", ""), "nr": c["nr"], "outcome": r.get("outcome", "mismatch"), "what": what}
+    s = {"kind": c.get("kind", ""), "nr": c["nr"], "outcome": r.get("outcome", "mismatch"), "what": what}
+    m = re.search(r"ASSERTION FAILED: ([^\n]*)", r.get("stderr") or "")
+    if m:
+        s["assert"] = m.group(1).strip()[:100]
+    return s
 
 
 # ---- plans -------------------------------------------------------------------------------------------------
